@@ -29,7 +29,7 @@ def build(item):
     node = family.build(item['spec'])
     S = node.src
     pre_ok, suf_ok = srcmodel.rebase_ok(S)
-    return offrun.make(S, dict(family.OPTS), False, make_oracle(node, item['tag'],
+    return offrun.make(S, dict(item.get('opts') or family.OPTS), False, make_oracle(node, item['tag'],
                                                                 bool(item.get('twin'))),
                        pre_ok, suf_ok)
 
